@@ -21,3 +21,9 @@ open UtilModel UtilModel.CSync
 #print axioms UtilModel.acceptsH_sound
 #print axioms C02_accepted_rw
 #print axioms C02_accepted_mutex
+#print axioms UtilModel.rejectH_sound
+#print axioms UtilModel.reject_sound
+#print axioms UtilModel.CSync.complete_rw
+#print axioms UtilModel.CSync.complete_mutex
+#print axioms UtilModel.CSync.reject_sound_rw
+#print axioms UtilModel.CSync.reject_sound_mutex
